@@ -1,6 +1,8 @@
 (* Properties/C03.v — conflict resolution.  Statements only; `opts` (how a field wrapper's option strings are
    computed from its prefix) is universally quantified, the resolver's constants are the regenerated facts. *)
+From SPV Require Import Model.Namespace Model.ArgparseM Model.ArgparseMSpec.
 From SPV Require Import Base.Str Model.OptStr Gen.FactsConflicts Proofs.ConflictsProofs.
+From SPV Require Import Proofs.OptionEffect.
 
 (* set-up succeeded => every registered option string belongs to exactly one field wrapper *)
 Theorem C03_resolved_options_unique : forall opts m fs fs',
@@ -66,6 +68,124 @@ Theorem C03_unclashed_keeps_bare_name : forall m fs fs' i,
   pfx (nth_fw fs' i) = "".
 Proof. exact unclashed_bare_default. Qed.
 Print Assumptions C03_unclashed_keeps_bare_name.
+
+(* ACROSS THE TWO ENGINES (resolver model + token-level argparse model, Model/ArgparseM.v).  The wrappers of a resolved forest fs'
+   are registered as argparse store actions (acts_of_forest: option strings `opts f`, destination = the dotted destination, nargs None,
+   converter k, string default d0, not required).  For every mode, forest, field number i, option string o of that field and value
+   token v: `o v` parses; the addressed leaf holds the converted token; every other leaf holds the converted default; and against the
+   namespace n0 of the empty command line NO key other than that destination differs.
+   Side conditions: forest_dashed (every registered option string starts with '-'), destinations of the input forest pairwise distinct,
+   v lexes as an argument for this parser (tok_plain, as in ARGP), the converter accepts v and d0. *)
+Theorem C03_option_changes_exactly_its_leaf :
+  forall (V K : Type) (cvt : K -> string -> res V) (veqb : V -> V -> bool) (opts : fw -> list string) (k : K) (d0 : string)
+         (m : crmode) (fs fs' : list fw),
+  resolve_gen opts m fs = Ok fs' ->
+  forest_dashed opts fs' = true ->
+  NoDup (map dest fs) ->
+  forall (ab : bool) (i : nat) (o v : string) (cv cd : V),
+  In o (nth i (map opts fs') []) ->
+  tok_plain ab (acts_of_forest V K opts k d0 fs') v = true ->
+  cvt k v = Ok cv -> cvt k d0 = Ok cd ->
+  exists n n0,
+    parse_args cvt veqb ab (acts_of_forest V K opts k d0 fs') [o; v] = Ok n
+    /\ parse_args cvt veqb ab (acts_of_forest V K opts k d0 fs') [] = Ok n0
+    /\ lookup (dest (nth_fw fs' i)) n = Some (SOne cv)
+    /\ (forall j, j <> i -> j < List.length fs' -> lookup (dest (nth_fw fs' j)) n = Some (SOne cd))
+    /\ (forall d, d <> dest (nth_fw fs' i) -> lookup d n = lookup d n0).
+Proof. exact option_changes_exactly_its_leaf. Qed.
+Print Assumptions C03_option_changes_exactly_its_leaf.
+
+(* the same for the one-token spelling `o=v` (any registered option string without '=' in it, single or double dash),
+   provided the whole token is not itself a registered option string *)
+Theorem C03_option_changes_exactly_its_leaf_eq_spelling :
+  forall (V K : Type) (cvt : K -> string -> res V) (veqb : V -> V -> bool) (opts : fw -> list string) (k : K) (d0 : string)
+         (m : crmode) (fs fs' : list fw),
+  resolve_gen opts m fs = Ok fs' ->
+  forest_dashed opts fs' = true ->
+  NoDup (map dest fs) ->
+  forall (ab : bool) (i : nat) (o v : string) (cv cd : V),
+  In o (nth i (map opts fs') []) ->
+  tok_plain ab (acts_of_forest V K opts k d0 fs') v = true ->
+  cvt k v = Ok cv -> cvt k d0 = Ok cd ->
+  has_char "="%char o = false ->
+  str_in (o ++ "=" ++ v) (List.concat (map opts fs')) = false ->
+  exists n n0,
+    parse_args cvt veqb ab (acts_of_forest V K opts k d0 fs') [o ++ "=" ++ v] = Ok n
+    /\ parse_args cvt veqb ab (acts_of_forest V K opts k d0 fs') [] = Ok n0
+    /\ lookup (dest (nth_fw fs' i)) n = Some (SOne cv)
+    /\ (forall j, j <> i -> j < List.length fs' -> lookup (dest (nth_fw fs' j)) n = Some (SOne cd))
+    /\ (forall d, d <> dest (nth_fw fs' i) -> lookup d n = lookup d n0).
+Proof. exact option_changes_exactly_its_leaf_eq_spelling. Qed.
+Print Assumptions C03_option_changes_exactly_its_leaf_eq_spelling.
+
+(* with the GENERATED option strings (Model/OptStr.v, any spelling configuration c) the first two hypotheses are theorems:
+   no positional field => every option string starts with '-'; dot-free path words and names with pairwise distinct
+   (path, name) pairs => pairwise distinct destinations (resolution keeps paths and names: C03_frame) *)
+Theorem C03_generated_option_changes_exactly_its_leaf :
+  forall (V K : Type) (cvt : K -> string -> res V) (veqb : V -> V -> bool) (c : cfg) (k : K) (d0 : string)
+         (m : crmode) (fs fs' : list fw) (ab : bool) (i : nat) (o v : string) (cv cd : V),
+  resolve_gen (option_strings c) m fs = Ok fs' ->
+  no_positional fs = true ->
+  forallb words_nodot fs = true ->
+  NoDup (map (fun f => (path f, name f)) fs) ->
+  In o (nth i (map (option_strings c) fs') []) ->
+  tok_plain ab (acts_of_forest V K (option_strings c) k d0 fs') v = true ->
+  cvt k v = Ok cv -> cvt k d0 = Ok cd ->
+  exists n n0,
+    parse_args cvt veqb ab (acts_of_forest V K (option_strings c) k d0 fs') [o; v] = Ok n
+    /\ parse_args cvt veqb ab (acts_of_forest V K (option_strings c) k d0 fs') [] = Ok n0
+    /\ lookup (dest (nth_fw fs' i)) n = Some (SOne cv)
+    /\ (forall j, j <> i -> j < List.length fs' -> lookup (dest (nth_fw fs' j)) n = Some (SOne cd))
+    /\ (forall d, d <> dest (nth_fw fs' i) -> lookup d n = lookup d n0).
+Proof. exact generated_option_changes_exactly_its_leaf. Qed.
+Print Assumptions C03_generated_option_changes_exactly_its_leaf.
+
+Theorem C03_generated_option_changes_exactly_its_leaf_eq_spelling :
+  forall (V K : Type) (cvt : K -> string -> res V) (veqb : V -> V -> bool) (c : cfg) (k : K) (d0 : string)
+         (m : crmode) (fs fs' : list fw) (ab : bool) (i : nat) (o v : string) (cv cd : V),
+  resolve_gen (option_strings c) m fs = Ok fs' ->
+  no_positional fs = true ->
+  forallb words_nodot fs = true ->
+  NoDup (map (fun f => (path f, name f)) fs) ->
+  In o (nth i (map (option_strings c) fs') []) ->
+  tok_plain ab (acts_of_forest V K (option_strings c) k d0 fs') v = true ->
+  cvt k v = Ok cv -> cvt k d0 = Ok cd ->
+  has_char "="%char o = false ->
+  str_in (o ++ "=" ++ v) (List.concat (map (option_strings c) fs')) = false ->
+  exists n n0,
+    parse_args cvt veqb ab (acts_of_forest V K (option_strings c) k d0 fs') [o ++ "=" ++ v] = Ok n
+    /\ parse_args cvt veqb ab (acts_of_forest V K (option_strings c) k d0 fs') [] = Ok n0
+    /\ lookup (dest (nth_fw fs' i)) n = Some (SOne cv)
+    /\ (forall j, j <> i -> j < List.length fs' -> lookup (dest (nth_fw fs' j)) n = Some (SOne cd))
+    /\ (forall d, d <> dest (nth_fw fs' i) -> lookup d n = lookup d n0).
+Proof. exact generated_option_changes_exactly_its_leaf_eq_spelling. Qed.
+Print Assumptions C03_generated_option_changes_exactly_its_leaf_eq_spelling.
+
+(* non-vacuity of the cross-engine theorems: the forest of C03_nonvacuous below, AUTO, the parser's default spelling, type=int with
+   default "3"; every hypothesis holds for field 0, its option `--a.m.x` and the token `-5`, in both spellings *)
+Example C03_effect_nonvacuous :
+  let fs := [mkfw ["a"; "m"] "x" "" [] false; mkfw ["b"; "m"] "x" "" [] false; mkfw ["b"] "y" "" [] false] in
+  let fs' := [mkfw ["a"; "m"] "x" "a.m." [] false; mkfw ["b"; "m"] "x" "b.m." [] false; mkfw ["b"] "y" "" [] false] in
+  let c := default_cfg_parser in
+  let acts := acts_of_forest ival iconv (option_strings c) CInt "3" fs' in
+  resolve_gen (option_strings c) CRAuto fs = Ok fs'
+  /\ no_positional fs = true /\ forallb words_nodot fs = true
+  /\ NoDup (map (fun f => (path f, name f)) fs)
+  /\ map (option_strings c) fs' = [["-a.m.x"; "--a.m.x"]; ["-b.m.x"; "--b.m.x"]; ["-y"; "--y"]]
+  /\ In "--a.m.x" (nth 0 (map (option_strings c) fs') [])
+  /\ tok_plain true acts "-5" = true
+  /\ icvt CInt "-5" = Ok (VI (-5)) /\ icvt CInt "3" = Ok (VI 3)
+  /\ has_char "="%char "--a.m.x" = false
+  /\ str_in ("--a.m.x" ++ "=" ++ "-5") (List.concat (map (option_strings c) fs')) = false
+  /\ iparse_args true acts [] = Ok [("a.m.x", SOne (VI 3)); ("b.m.x", SOne (VI 3)); ("b.y", SOne (VI 3))]
+  /\ iparse_args true acts ["--a.m.x"; "-5"] = Ok [("a.m.x", SOne (VI (-5))); ("b.m.x", SOne (VI 3)); ("b.y", SOne (VI 3))]
+  /\ iparse_args true acts ["--a.m.x=-5"] = Ok [("a.m.x", SOne (VI (-5))); ("b.m.x", SOne (VI 3)); ("b.y", SOne (VI 3))].
+Proof.
+  cbv zeta. repeat split; try (vm_compute; reflexivity).
+  - apply NoDup_cons; [|apply NoDup_cons; [|apply NoDup_cons; [|apply NoDup_nil]]]; cbn; intuition discriminate.
+  - vm_compute. right. left. reflexivity.
+Qed.
+Print Assumptions C03_effect_nonvacuous.
 
 (* non-vacuity: two destinations sharing a nested class; AUTO resolves it with one lineage word *)
 Example C03_nonvacuous :
